@@ -133,9 +133,10 @@ Theorem C13_latlon_time_ratio : forall (T : Type) (O : NumOps T) dim sdim geo l 
 Proof. exact @construct_latlon_time_ratio. Qed.
 Print Assumptions C13_latlon_time_ratio.
 
-(* 9b. the same invariants hold after EVERY history of len_scale / anis / angles assignments (every number type):
-       lat-lon: dim 3(+1), spatial ratios 1, all angles 0; metric temporal: angles of planes containing time are 0;
-       list lengths dim-1 and no_of_angles dim; dim / latlon / temporal / geo_scale never change *)
+(* 9b. the same invariants hold after EVERY history of len_scale / anis / angles / dim assignments (every number type;
+       dim may go up or down): lat-lon: dim 3(+1), spatial ratios 1, all angles 0; metric temporal: angles of planes containing
+       time are 0; list lengths dim-1 and no_of_angles dim; latlon / temporal / geo_scale never change, dim only by a dim assignment
+       on a non-lat-lon model *)
 Theorem C13_state_invariant_all_histories :
   forall (T : Type) (O : NumOps T) dim sdim latlon temporal geo ls anis angles m0 ops m,
   construct O dim sdim latlon temporal geo ls anis angles = Some m0 -> gsteps O m0 ops = Some m ->
@@ -145,14 +146,37 @@ Theorem C13_state_invariant_all_histories :
      g_angles m = repeat (n0 O) (no_of_angles (g_dim m))) /\
   (g_latlon m = false -> g_temporal m = true ->
      forall k, (no_of_angles (g_dim m - 1) <= k)%nat -> aget (n0 O) (g_angles m) k = n0 O) /\
-  g_dim m = g_dim m0 /\ g_latlon m = latlon /\ g_temporal m = temporal /\ g_geo_scale m = g_geo_scale m0.
+  g_latlon m = latlon /\ g_temporal m = temporal /\ g_geo_scale m = g_geo_scale m0 /\
+  (latlon = true -> g_dim m = g_dim m0).
 Proof.
   intros T O dim sdim latlon temporal geo ls anis angles m0 ops m Hc Hs.
   destruct (construct_inv O _ _ _ _ _ _ _ _ _ Hc) as (Hi0 & El & Et).
-  destruct (gsteps_inv O ops m0 m Hi0 Hs) as ((H1 & H2 & H3 & H4 & H5) & E1 & E2 & E3 & E4).
-  rewrite <- El, <- Et. repeat (split; [assumption|]). assumption.
+  destruct (gsteps_inv O ops m0 m Hi0 Hs) as ((H1 & H2 & H3 & H4 & H5) & E2 & E3 & E4).
+  rewrite <- El, <- Et. repeat (split; [assumption|]).
+  intros Hl. destruct Hi0 as (_ & _ & _ & Hll0 & _). destruct (Hll0 Hl) as (D0 & _).
+  rewrite <- E2 in Hl. destruct (H4 Hl) as (D & _). rewrite D, D0, E3. reflexivity.
 Qed.
 Print Assumptions C13_state_invariant_all_histories.
+
+(* 9b'. consequence at the real instance, for a metric spatio-temporal model after ANY such history (dim >= 2 at the end):
+        the isometrizing matrix is block diagonal at the time axis and a pure time lag is mapped to the last axis scaled by
+        1 / anis[-1] (the time axis is never rotated into space, whatever was assigned before) *)
+Theorem C13_time_axis_after_any_history :
+  forall ora dim sdim geo ls anis angles m0 ops (m : geomodel (T := R)) (p : list R),
+  construct (RO ora) dim sdim false true geo ls anis angles = Some m0 -> gsteps (RO ora) m0 ops = Some m ->
+  (2 <= g_dim m)%nat ->
+  let M := matrix_isometrize (RO ora) (g_dim m) (g_angles m) (g_anis m) in
+  let tau := (g_dim m - 1)%nat in
+  (forall i, (i < tau)%nat -> ent (RO ora) M i tau = 0 /\ ent (RO ora) M tau i = 0) /\
+  ent (RO ora) M tau tau = 1 / last (g_anis m) 0 /\
+  aget 0 (isometrize (RO ora) m p) tau = aget 0 p tau / last (g_anis m) 0.
+Proof.
+  intros ora dim sdim geo ls anis angles m0 ops m p Hc Hs H2.
+  destruct (construct_inv (RO ora) _ _ _ _ _ _ _ _ _ Hc) as (Hi0 & El & Et).
+  destruct (gsteps_inv (RO ora) ops m0 m Hi0 Hs) as (Hi & E2 & E3 & _).
+  apply (time_axis_of_invariant_state ora m p Hi); [now rewrite E2 | now rewrite E3 | exact H2].
+Qed.
+Print Assumptions C13_time_axis_after_any_history.
 
 (* 9c. assigning a scalar len_scale keeps every ratio — in particular the time ratio of a lat-lon + temporal model
        (this is the defect repaired by /repo commit b408ce8; the setter correspondence ties the model to the code) *)
